@@ -25,6 +25,6 @@ def run(tier, seed):
     return ck.finish()
 def replay(path, seed):
     ck = vlib.Check(PID, "quick", seed, "model_checking")
-    tracecheck.validate(ck, PID, "replay", "DKGTrace", "DKGTrace_known.cfg" if dkg_common.listed(PID) else "DKGTrace.cfg",
+    tracecheck.validate(ck, PID, "replay", "DKGTrace", dkg_common.trace_cfg(PID),
                         tracecheck.split_executions(path), chunks=1)
     return ck.finish()
